@@ -23,6 +23,8 @@ checks = {
    text="Held on the executions observed: roster histories crossing the 2-byte counter boundaries are read back in order; verifyPlacementSignatures=true (and a successful submitObjectPut) is accepted only if the Go oracle finds >= REP distinct members with a valid signature in every vector; honest matrices must be accepted.", ref="§3 C14"),
  "C09": dict(tech="runtime monitoring: executable lock model stepping with the transaction stream; exact multiset of unlock transfers and balance deltas per epoch tick, state read-back of every lock after every block",
    text="Held on the executions observed: lock/burn/transfer/tick histories with many locks sharing parents and expiry epochs; each tick's unlock events and balance deltas must equal the model's expired set exactly (exactly-once by construction of the model).", ref="§3 C09"),
+ "C20": dict(tech="runtime monitoring: multimap reference models of five stores; every getter/lister read for every pool element after every operation; known-finding matcher for prefix-scan aliasing",
+   text="Held on the executions observed, with three recorded known findings (prefix-scan aliasing of variable-length epoch encodings in Reputation, Audit and container estimations, see KNOWN_FINDINGS.json): puts over prefix-related epochs/ids/keys, clean-up boundaries, access rules (previous network map, Inner Ring membership, Alphabet) are compared with exact-store models; any discrepancy the aliasing matcher does not explain completely is a VIOLATION.", ref="§3 C20"),
 }
 man = {
  "version": 1,
